@@ -13,6 +13,10 @@ NAMES = {
 }
 
 
+_RUNS = 0
+STALE_ALWAYS = False
+
+
 def b(s):
     return list(s.encode("utf-8")) if isinstance(s, str) else list(s)
 
@@ -32,6 +36,21 @@ def run(tool, args, cwd, env=None, timeout=60):
     e = dict(os.environ)
     if env:
         e.update(env)
+    # the output path of every other invocation already holds a (longer) file, as when a build directory is reused:
+    # what a tool writes must not depend on what was there before
+    global _RUNS
+    _RUNS += 1
+    for flag in ("-o",):
+        if flag in args and (_RUNS % 2 == 0 or STALE_ALWAYS):
+            outp = args[args.index(flag) + 1]
+            if not os.path.isabs(outp):
+                outp = os.path.join(cwd, outp)
+            if not os.path.exists(outp):
+                try:
+                    with open(outp, "wb") as f:
+                        f.write(b"stale bytes of an earlier build\n" * 8000)
+                except OSError:
+                    pass
     try:
         p = subprocess.run([os.path.join(CLI, tool)] + args, cwd=cwd, env=e, capture_output=True, timeout=timeout, stdin=subprocess.DEVNULL)
         return p.returncode, p.stdout, p.stderr
@@ -177,6 +196,49 @@ def _har_pipeline(pl, sd, fix, info, cid):
     rc, so, se = run("gen-bundle", args, sd)
     rc2, so2, se2 = run("dump-bundle", ["-i", out], sd)
     return [{"case": cid, "kind": "harcli", "ver": p1["ver"], "entries": entries, "file": list(read(out)), "gen_exit": rc, "dump_exit": rc2, "stderr": (se + se2).decode("latin1")[-300:]}]
+
+
+def ib_cli(rep, pid):
+    """The command-line path of integrity-block signing (used by C07 too): gen-bundle -> sign-bundle integrity-block /
+    dump-id with every key form, every output path already holding a longer file.  Returns number of records."""
+    global STALE_ALWAYS
+    build_cli()
+    wd = workdir(pid)
+    fix = os.path.join(wd, "fixtures")
+    shutil.rmtree(fix, ignore_errors=True)
+    info = vh(["cli-fixtures", fix])[0]
+    scratch = vlib.fresh(os.path.join(wd, "scratch"))
+    events = []
+    STALE_ALWAYS = True
+    try:
+        i = 0
+        for names in ("plain", "empty", "nested"):
+            for kf in ("pkcs8", "encrypted", "public"):
+                i += 1
+                pl = [{"tool": "gen-bundle -dir", "p": {"names": names, "ver": "b2", "base": "root", "override": "none"}},
+                      {"tool": "sign-bundle integrity-block", "p": {"keyform": kf}}, {"tool": "sign-bundle dump-id", "p": {"keyform": kf}}]
+                sd = vlib.fresh(os.path.join(scratch, "ib%d" % i))
+                events += [e for e in _dir_pipeline(pl, sd, fix, info, "ibcli%d" % i) if e["kind"] == "ibcli"]
+                shutil.rmtree(sd, ignore_errors=True)
+    finally:
+        STALE_ALWAYS = False
+    outp = os.path.join(wd, "ibcli.ndjson")
+    cases = {}
+    with open(outp, "w") as f:
+        for e in events:
+            cases[e["case"]] = e
+            f.write(json.dumps(e) + "\n")
+    n, rejects, states = trace_validate("Trace_Cli", pid + "/ibcli", outp, overrides=True, shards=8, timeout=3000)
+    rep.cov["states"] += states
+    rep.cov["transitions"] += states
+    rep.cov["traces_validated_against_impl"] += n
+    for rj in rejects:
+        c = cases[rj["case"]]
+        for w in rj["why"]:
+            rep.violation("ibcli:%s:%s" % (c["keyform"], w[:50]), "sign-bundle integrity-block / dump-id (%s key) on a %d-byte bundle, output path holding an older, longer file: %s [exits sign=%s dump-id=%s; output %d bytes; %s]" % (
+                c["keyform"], len(c["infile"]), w, c["sign_exit"], c["dumpid_exit"], len(c["out"]), c["stderr"][-160:]), {"component": "cli", "event": {k: v for k, v in c.items() if k not in ("infile", "out")}, "why": w})
+    rep.add("cli_integrity_block", records=n, rejected=len(rejects))
+    return n
 
 
 def check_c20(tier):
